@@ -3,7 +3,7 @@
    shows that running it on any byte string gives the model's parse_kv.
    What is given a meaning (anything else is PBad and the run is stuck):
      identifiers, the constants ExplainZh / ExplainEn, integer and string literals, -e
-     strings.Index(s, "c") for a one-byte c (-1 when absent)   len(s)   IncludeZhRe.MatchString(s)
+     strings.Index(s, sub) (-1 when absent)   len(s)   IncludeZhRe.MatchString(s)
      s[:i]  s[i:]  s[i:j]   (a slice out of range is a run-time panic: PBad)
      == != < > on integers, + on integers and on strings, && || on booleans
      := and = to a variable, if (with an init statement) / else, return (named results) *)
@@ -19,7 +19,10 @@ From PGV Require Import Extracted.SourceConst Model.RuleText.
    m[k] += x, len(m)), strings.Split and strings.Join on a one-byte separator *)
 Open Scope Z_scope.
 
-Inductive pv := PS (s : str) | PZ (z : Z) | PB (b : bool) | PL (l : list str) | PM (m : rm) | PBad.
+Inductive pv := PS (s : str) | PZ (z : Z) | PB (b : bool) | PL (l : list str) | PM (m : rm)
+               | PE (text : str)        (* an error value: what its Error() returns *)
+               | PO                     (* an interface value of some other dynamic type *)
+               | PBad.
 Definition penv := string -> pv.
 Definition pset (x : string) (v : pv) (e : penv) : penv := fun y => if String.eqb y x then v else e y.
 Definition pempty : penv :=
@@ -29,9 +32,11 @@ Definition pempty : penv :=
 
 Definition index1 (s sub : str) : pv :=
   match sub with
+  | [] => PBad
   | [c] => PZ (match index_byte c s with Some n => Z.of_nat n | None => -1 end)
-  | _ => PBad
+  | _ => PZ (match index sub s with Some n => Z.of_nat n | None => -1 end)
   end.
+Definition trim_prefix (s p : str) : str := if has_prefix s p then skipn (List.length p) s else s.
 
 Definition slice_of (s : str) (lo hi : option Z) : pv :=
   let n := Z.of_nat (List.length s) in
@@ -55,7 +60,13 @@ Fixpoint peval (e : penv) (x : expr) {struct x} : pv :=
     else if String.eqb pkg "strings" && String.eqb f "Contains" then
       match peval e a, peval e b with PS s, PS sub => PB (contains s sub) | _, _ => PBad end
     else if String.eqb pkg "strings" && String.eqb f "Split" then       (* one-byte separators only *)
-      match peval e a, peval e b with PS s, PS [c] => PL (split1 c [] s) | _, _ => PBad end
+      match peval e a, peval e b with
+      | PS s, PS [c] => PL (split1 c [] s)
+      | PS s, PS (c :: d :: r) => PL (split s (c :: d :: r))
+      | _, _ => PBad
+      end
+    else if String.eqb pkg "strings" && String.eqb f "TrimPrefix" then
+      match peval e a, peval e b with PS s, PS p => PS (trim_prefix s p) | _, _ => PBad end
     else if String.eqb pkg "strings" && String.eqb f "Join" then
       match peval e a, peval e b with PL l, PS [c] => PS (join1 c l) | _, _ => PBad end
     else PBad
@@ -71,7 +82,8 @@ Fixpoint peval (e : penv) (x : expr) {struct x} : pv :=
       end
     else PBad
   | ECall (ESel (EId b) f) [] =>     (* a strings.Builder: its text *)
-    if String.eqb f "String" then match e b with PS s => PS s | _ => PBad end else PBad
+    if String.eqb f "String" then match e b with PS s => PS s | _ => PBad end
+    else if String.eqb f "Error" then match e b with PE t => PS t | _ => PBad end else PBad
   | EIndex a i =>
     match peval e a, peval e i with
     | PS s, PZ z => if 0 <=? z then match nth_error s (Z.to_nat z) with Some c => PZ (Z.of_N c) | None => PBad end else PBad
@@ -166,6 +178,18 @@ Fixpoint pexec (s : stmt) (e : penv) {struct s} : pflow :=
       | _ => PStuck
       end
     | other => other
+    end
+  (* switch v := x.(type) { case string: ... case error: ... }: the first case naming x's dynamic type; none: nothing *)
+  | STypeSwitch (Some v) x cases =>
+    let dyn := match peval e x with PS _ => Some "string"%string | PE _ => Some "error"%string | PO => Some ""%string | _ => None end in
+    match dyn with
+    | Some d =>
+      (fix pick (cs : list (list string * list stmt)) : pflow :=
+         match cs with
+         | [] => PNext e
+         | (tys, body) :: r => if existsb (String.eqb d) tys then run body (pset v (peval e x) e) else pick r
+         end) cases
+    | None => PStuck
     end
   | SContinue => PCont e
   | SRange (Some i) (Some v) _ coll body =>
@@ -264,6 +288,20 @@ Definition run_rm_set (f : fn) (r : rm) (fields : str) (rules : list str) : opti
   end.
 Definition run_rm_get (f : fn) (r : rm) (field : str) : option str :=
   match pexec_list (fn_body f) (pset "r" (PM r) (pset "fieldName" (PS field) pempty)) with
+  | PRet _ (Some (PS s)) => Some s
+  | _ => None
+  end.
+
+(* GetJoinFieldErr(objName, fieldName, err interface{}) (valid/common.go): err is a string, an error, or something else *)
+Definition run_field_err (f : fn) (obj field : str) (err : pv) : option str :=
+  match pexec_list (fn_body f) (pset "objName" (PS obj) (pset "fieldName" (PS field) (pset "err" err pempty))) with
+  | PRet _ (Some (PS s)) => Some s
+  | _ => None
+  end.
+
+(* GetOnlyExplainErr(errMsg) (valid/init.go) *)
+Definition run_explain (f : fn) (msg : str) : option str :=
+  match pexec_list (fn_body f) (pset "errMsg" (PS msg) pempty) with
   | PRet _ (Some (PS s)) => Some s
   | _ => None
   end.
